@@ -137,11 +137,11 @@ else {
 debug_assert! ( lg_k >= 4 ) ;
 let tmp = num_coupons >> ( lg_k - 4 ) ;
 proof {
-let t = tmp ;
-assert ( ( t & 15 ) < 16 ) by ( bit_vector ) ;
 let s8 = ( lg_k - 4 ) as u8 ;
 let s32 = ( lg_k - 4 ) as u32 ;
 assert ( s8 <= 22 && s32 == s8 as u32 ==> ( num_coupons >> s8 ) == ( num_coupons >> s32 ) ) by ( bit_vector ) ;
+let t = num_coupons >> s8 ;
+assert ( ( t & 15 ) < 16 && t & 15 == t % 16 && t & 15 == 15 & t ) by ( bit_vector ) ;
 }
 ( tmp & 15 ) as u8 }
 }
@@ -400,10 +400,12 @@ is_novel = true ;
 }
 proof {
 let sh = ( col - self . window_offset ) as u8 ;
-assert forall | b : int | 0 <= b < 8 implies bit8 ( new_bits , b ) == ( bit8 ( old_bits , b ) || b == sh ) by {
-lemma_or_bit8 ( old_bits , sh , b ) ;
+let g_ob = old ( self ) . sliding_window @ [ row_g ] ;
+let g_nb = g_ob | ( 1u8 << sh ) ;
+assert forall | b : int | 0 <= b < 8 implies bit8 ( g_nb , b ) == ( bit8 ( g_ob , b ) || b == sh ) by {
+lemma_or_bit8 ( g_ob , sh , b ) ;
 }
-assert ( sh < 8 ==> ( ( old_bits | ( 1u8 << sh ) ) != old_bits <==> ! ( ( old_bits >> sh ) & 1 == 1 ) ) ) by ( bit_vector ) ;
+assert ( sh < 8 ==> ( ( g_ob | ( 1u8 << sh ) ) != g_ob <==> ! ( ( g_ob >> sh ) & 1 == 1 ) ) ) by ( bit_vector ) ;
 assert ( self . tbl ( ) == old ( self ) . tbl ( ) ) ;
 }
 }
